@@ -376,13 +376,13 @@ class Runner:
             pass   # after a fatal failure CBMC 6 leaves later properties UNKNOWN; the failure is the verdict
         elif res.n_unknown:
             res.error = "%d properties UNKNOWN without any failure" % res.n_unknown
+        elif res.unwind_failed and not res.failed:
+            res.error = "unwinding assertion failed (%s): bound too small or loop no longer bounded" % \
+                ", ".join(sorted(set(r.get("property", "?") for r in res.unwind_failed)))
         elif reach_all - reach_failed:
             res.error = "VACUOUS: reach-witness not reachable: %s" % sorted(reach_all - reach_failed)
         elif not reach_all:
             res.error = "harness has no reach-witness"
-        elif res.unwind_failed and not res.failed:
-            res.error = "unwinding assertion failed (%s): bound too small or loop no longer bounded" % \
-                ", ".join(sorted(set(r.get("property", "?") for r in res.unwind_failed)))
         res.ok = (res.error is None and not res.failed)
 
     # ---------- native replay ----------
